@@ -382,7 +382,15 @@ def rule_one_per_char(ctx):
         ctx.violation(rp.path + "|resize|1", site(rp, 0), "reconstruct_optimal_path does not grow the indices vector by exactly one entry per needle character (old_len + row_offs.len())")
 
 
+def rule_backpointers(ctx):
+    """Index reconstruction follows the DP's back-pointers: they must say `came from a match` exactly
+    when the match branch won (shared with C04.cell-equations)."""
+    from props.c04 import rule_cell_equations
+    rule_cell_equations(ctx)
+
+
 def rules(ctx):
+    ctx.run_rule("C02.backpointers", rule_backpointers)
     ctx.run_rule("C02.append-only", rule_append_only)
     ctx.run_rule("C02.no-push-on-none", rule_no_push_on_none)
     ctx.run_rule("C02.indices-guard", rule_indices_guard)
